@@ -152,6 +152,83 @@ def corruption_test(run, prop, src_dir, corrupt_fn, n=8):
                        f"(the binding does not bind)\n{(r['error'] or '')[-1500:]}")
 
 
+# ---------------------------------------------------------------------------------------------
+# structured families enumerated by TLC (spec/Families.tla, spec/MC_Families.tla) -> real code
+# ---------------------------------------------------------------------------------------------
+FAM_STRIDE = {  # family: (quick stride, thorough stride); stride 1 = exhaustive
+    "EP": (331, 6), "EPEDGE": (1, 1), "ONLYEP": (7, 1), "PIN": (53, 1), "CASTLE": (29, 1),
+    "PROMO": (2, 1), "MAT": (61, 2), "CHK": (1999, 37),
+}
+FAMS_FOR = {
+    "C01": ["EP", "EPEDGE", "ONLYEP", "PIN", "CASTLE", "PROMO", "CHK"],
+    "C03": ["EP", "EPEDGE", "CASTLE", "PROMO", "MAT"],
+    "C06": ["EP", "EPEDGE", "PIN", "CASTLE", "PROMO", "CHK"],
+    "C07": ["EP", "ONLYEP", "PIN", "MAT", "CHK", "CASTLE"],
+    "C16": ["PIN", "CHK", "CASTLE"],
+    "C04": ["EP", "CASTLE", "PROMO"],
+    "C05": ["EP", "CASTLE", "PROMO"],
+}
+
+
+def enumerate_family(run, fam, stride, seed, workers):
+    env = {"FAM_" + fam: 1, "STRIDE": stride, "SEED": seed}
+    r = run_tlc("MC_Families", "MC_Families.cfg", env=env, workers=workers, xmx="4g", timeout=3000,
+                tag=f"fam-{run.prop}-{fam}")
+    if "Model checking completed. No error has been found" not in r["out"]:
+        run.tool_error(f"MC_Families({fam}) failed:\n" + r["out"][-2500:])
+        return []
+    pos = []
+    for m in re.finditer(r'^"POS (\w+) (.*)"\s*$', r["out"], re.M):
+        pos.append({"fam": m.group(1), "pos": json.loads(m.group(2).replace('\\"', '"'))})
+    run.states += r["distinct"]
+    run.transitions += max(r["generated"] - 1, 0)
+    return pos
+
+
+def families(run, prop, tier, seed, binary, ident_fn, classify_fn, payload_fn=None, cap=None):
+    """TLC enumerates the families (exhaustively in thorough, seed-sampled in quick); every valid position
+    is replayed into the real code; the recorded results are validated against the spec."""
+    fams = FAMS_FOR.get(prop, [])
+    if not fams:
+        return
+    t0 = time.time()
+    qi = 0 if tier == "quick" else 1
+    wk = max(1, NCPU // max(1, len(fams)))
+    with ThreadPoolExecutor(max_workers=len(fams)) as ex:
+        lists = list(ex.map(lambda f: enumerate_family(run, f, FAM_STRIDE[f][qi], seed, wk), fams))
+    counts = {f: len(l) for f, l in zip(fams, lists)}
+    allpos = [p for l in lists for p in l]
+    log(f"[fam] TLC enumerated {len(allpos)} family positions {counts} in {time.time() - t0:.1f}s")
+    run.extra["families"] = {"positions": counts, "stride": {f: FAM_STRIDE[f][qi] for f in fams},
+                             "exhaustive_families": [f for f in fams if FAM_STRIDE[f][qi] == 1]}
+    for f, n in counts.items():
+        if n == 0:
+            run.tool_error(f"vacuous: family {f} produced no position")
+    d = fresh_dir(os.path.join(WORK, f"{prop}-{tier}-fam"))
+    pf = os.path.join(d, "positions.ndjson")
+    with open(pf, "w") as f:
+        for p in allpos:
+            f.write(json.dumps(p) + "\n")
+    rc, txt = run_harness(binary, ["gen-from", prop, pf, d, cap or (250 if tier == "quick" else 2000)])
+    log(f"[gen] families: {txt.strip().splitlines()[-1] if txt.strip() else ''} rc={rc}")
+    if rc != 0:
+        wal = os.path.join(d, "wal.json")
+        if os.path.exists(wal):
+            w = json.load(open(wal))
+            run.violation("crash:" + json.dumps(w), {"engine": "s2i", "crash": w, "output": txt[-2000:]},
+                          "the library aborted the process on this input")
+        else:
+            run.tool_error("harness gen-from failed:\n" + txt[-3000:])
+        return
+    m = re.search(r"rejected_by_library=(\d+)", txt)
+    if m and int(m.group(1)) > 0:
+        run.tool_error(f"{m.group(1)} family positions that the spec calls valid were rejected or altered by "
+                       f"Board::try_from (a C11 matter; see ./check C11)")
+    res = validate_dir(prop, d)
+    run.vectors += len(allpos)
+    run.add_trace_results(res, ident_fn, classify_fn, payload_fn)
+
+
 def plan_queries(prop, tier, seed):
     run = Run(prop, tier, seed, "model_checking")
     run.rule = RULES[prop]
@@ -187,6 +264,7 @@ def plan_queries(prop, tier, seed):
         fs.result()
     run.add_trace_results(res, ident_q(prop), classify_q(prop))
     corruption_test(run, prop, out, corrupt_q)
+    families(run, prop, tier, seed, binary, ident_q(prop), classify_q(prop))
     if len(run.nontrivial) < 2:
         run.tool_error("vacuous coverage: fewer than 2 non-trivial positions")
     return run.finish()
@@ -339,8 +417,235 @@ def plan_sessions(prop, tier, seed):
     res = validate_dir(prop, out)
     run.add_trace_results(res, ident_session(prop), classify_session(prop), session_payload)
     corruption_sessions(run, prop, out)
+    families(run, prop, tier, seed, binary, ident_session(prop), classify_session(prop), session_payload,
+             cap=700 if tier == "quick" else 3000)
     # the model by itself (after the traces: 16 TLC workers would starve the validators)
     mc_impl(run, 1 if tier == "quick" else 2)
+    if len(run.nontrivial) < 2:
+        run.tool_error("vacuous coverage: fewer than 2 non-trivial cases")
+    return run.finish()
+
+
+# ---------------------------------------------------------------------------------------------
+# generic trace-validated properties: chain sessions (C02 C13 C14 C17) and text formats (C08 C09 C10 C12)
+# ---------------------------------------------------------------------------------------------
+def txt(cps):
+    return "".join(chr(c) for c in cps)
+
+
+class Classifier:
+    """Stateful non-triviality rule: fed every event in order, returns a distinct key or None."""
+    def __init__(self, prop):
+        self.prop, self.sess, self.idx = prop, "", 0
+
+    def __call__(self, ev):
+        k = ev.get("ev", "")
+        p = self.prop
+        if k == "c_new":
+            self.sess, self.idx = fen_of(ev), 0
+        self.idx += 1
+        here = f"{self.sess}#{self.idx}"
+        if p == "C13":
+            if k == "c_push" and (ev["res"] != "ok" or ev["m"][0] != 1):
+                return here
+            if k in ("c_pop", "c_eq"):
+                return here
+        elif p == "C14":
+            if k in ("c_calc", "c_set_auto") and (ev["res"] != ["none"] or any(r >= 2 for r in ev.get("rep", []))):
+                return here
+        elif p == "C17":
+            if k in ("c_walk", "c_text") and ev["obs"]["len"] >= 1:
+                return here
+        elif p == "C02":
+            if k == "c_push":
+                like = ev["like"]
+                return f"{chessfmt.pos_to_fen(ev['obs']['last']['pos']) if ev['res']!='ok' else here} {like['t']} {like.get('m') or txt(like.get('text', []))}"
+        elif p == "C08":
+            if k in ("fen", "fenparse"):
+                return txt(ev["text"])
+        elif p == "C09":
+            if k == "san" and any(len(x.get("san", [])) > 3 for x in ev["moves"]):
+                return fen_of(ev)
+        elif p == "C10":
+            if k == "uci" and any(x[1][0] != 1 for x in ev["semi"]):
+                return fen_of(ev)
+        elif p == "C12":
+            if k == "parse" and (ev["bytes"] != len(ev["text"]) or len(ev["text"]) <= 3 or ev["res"] == "ok"):
+                return ev["what"] + ":" + txt(ev["text"])
+        return None
+
+
+def ident_generic(prop):
+    def f(ev, failed):
+        if ev is None:
+            return "unknown"
+        k = ev.get("ev", "")
+        tags = ",".join(failed)
+        if k.startswith("c_"):
+            extra = ""
+            if k == "c_push":
+                like = ev["like"]
+                extra = f" {like['t']}:{chessfmt.move_str(like['m']) if 'm' in like else repr(txt(like['text']))} -> {ev['res']}"
+            if k == "c_set_auto":
+                extra = " " + ev["filter"]
+            return f"{k}{extra} @ {chessfmt.pos_to_fen(ev['obs']['last']['pos'])} len={ev['obs']['len']} :: {tags}"
+        if k in ("fen", "san", "uci"):
+            return f"{k} {fen_of(ev)} :: {tags}"
+        if k == "fenparse":
+            return f"fenparse {txt(ev['text'])!r} :: {tags}"
+        if k == "parse":
+            return f"parse {ev['what']} {txt(ev['text'])!r} :: {tags}"
+        return f"{k} :: {tags}"
+    return f
+
+
+def chain_payload(evs, line):
+    i = line - 1
+    if not evs[i].get("ev", "").startswith("c_"):
+        return {}
+    start = i
+    while start > 0 and evs[start].get("ev") != "c_new":
+        start -= 1
+    return {"session": evs[start:i + 1]}
+
+
+def split_by(evs, first):
+    out, cur = [], []
+    for ev in evs:
+        if ev.get("ev") == first:
+            if cur:
+                out.append(cur)
+            cur = [ev]
+        elif cur:
+            cur.append(ev)
+    if cur:
+        out.append(cur)
+    return out
+
+
+def corrupt_generic(prop, evs):
+    """Returns a list of traces, each with exactly one corrupted field relevant to `prop`."""
+    out = []
+    if prop in ("C02", "C13", "C14", "C17"):
+        for s in split_by(evs, "c_new"):
+            s = copy.deepcopy(s)
+            done = False
+            for e in s:
+                k = e["ev"]
+                if prop == "C13" and k == "c_push" and e["res"] == "ok":
+                    e["obs"]["last"]["pos"]["hm"] = (e["obs"]["last"]["pos"]["hm"] + 1) % 65536; done = True
+                elif prop == "C02" and k == "c_push" and e["res"] == "err" and e["like"]["t"] in ("move", "uci"):
+                    e["obs"]["revalid"] = False; e["obs"]["last"]["pos"]["fm"] = (e["obs"]["last"]["pos"]["fm"] % 65535) + 1; done = True
+                elif prop == "C14" and k == "c_calc":
+                    e["res"] = ["draw", "repeat5"] if e["res"] != ["draw", "repeat5"] else ["none"]; done = True
+                elif prop == "C17" and k == "c_walk" and any(r["some"] for r in e["results"]):
+                    r = [r for r in e["results"] if r["some"]][0]
+                    r["m"] = [1, 2, 0, 1] if r["m"] != [1, 2, 0, 1] else [1, 2, 1, 0]; done = True
+                if done:
+                    break
+            if done:
+                out.append(s)
+            if len(out) >= 6:
+                break
+    else:
+        for e in evs:
+            e = copy.deepcopy(e)
+            k = e["ev"]
+            if prop == "C08" and k == "fen":
+                e["text"] = e["text"][:-1] + [e["text"][-1] ^ 1]
+            elif prop == "C09" and k == "san" and e["moves"]:
+                e["moves"][0]["san"] = e["moves"][0]["san"] + [43]
+            elif prop == "C10" and k == "uci" and e["semi"]:
+                e["semi"] = e["semi"][1:]
+            elif prop == "C12" and k == "parse":
+                e["res"] = "panic"
+            else:
+                continue
+            out.append([e])
+            if len(out) >= 8:
+                break
+    return out
+
+
+def corruption_generic(run, prop, src_dir):
+    shards = sorted(glob.glob(os.path.join(src_dir, "shard_*.ndjson")))
+    traces = corrupt_generic(prop, read_lines(shards[0])) if shards else []
+    if not traces:
+        run.tool_error("corruption test: nothing corruptible")
+        return
+    d = fresh_dir(os.path.join(WORK, f"{prop}-corrupt"))
+    path = os.path.join(d, "shard_0000.ndjson")
+    bounds = []
+    n = 0
+    with open(path, "w") as f:
+        for t in traces:
+            bounds.append((n + 1, n + len(t)))
+            for ev in t:
+                f.write(json.dumps(ev) + "\n")
+                n += 1
+    r = validate_shard(prop, path)
+    lines = {ln for ln, _ in r["nonconf"]}
+    caught = sum(1 for a, b in bounds if any(a <= ln <= b for ln in lines))
+    run.extra["corruption_test"] = {"corrupted_traces": len(traces), "rejected": caught}
+    if r["error"] or caught < len(traces):
+        run.tool_error(f"corruption test: only {caught} of {len(traces)} corrupted traces were rejected\n{(r['error'] or '')[-1500:]}")
+
+
+GENERIC = {
+    # prop: (quick n, thorough n, quick shard cap, thorough cap)
+    "C02": (160, 9000, 300, 1500),
+    "C13": (160, 9000, 300, 1500),
+    "C14": (120, 6000, 300, 1500),
+    "C17": (160, 9000, 300, 1500),
+    "C08": (700, 60000, 800, 4000),
+    "C09": (500, 30000, 40, 300),
+    "C10": (900, 50000, 70, 500),
+    "C12": (60, 600, 4000, 20000),
+}
+RULES.update({
+    "C02": "random chain sessions (push of Move / uci::Move / Uci(&str) / san::Move / San(&str): every kind of legal move, pseudo-legal-illegal moves, well-formed non-semilegal moves, the null move, mutated and garbage text; pops, outcome operations); after EVERY call the whole chain observation incl. re-validation of the current board is logged; non-trivial = each distinct (position, move-like value) pushed",
+    "C13": "same sessions; non-trivial = refused pushes, pushes of special-kind moves, pops, equality comparisons (rebuilt chain + 6 perturbed variants); distinct by (session start, op index)",
+    "C14": "shuffle-biased sessions (moves that undo the previous own move) from small endgames and castling/e.p. starts with clocks near 100/150; calc_outcome and set_auto_outcome under all three filters, a spy Repeat wrapping HashRepeat records count(); non-trivial = outcome not none or repetition count >= 2",
+    "C17": "walk-biased sessions: random next/prev/start/end step sequences (returned board in full projection), UCI list text + from_uci_list round trip, styled(...) for all 3 number policies x 3 styles x 2 status policies incl. Black-to-move starts and custom numbers; non-trivial = walker/printing of a chain with >= 1 move",
+    "C08": "FEN of every position of the stream (board) + unvalidated random raw boards with rank-consistent e.p. mark (0-64 men, any number of kings) + all 2^8 run-length patterns of one rank + accepted non-canonical and mutated texts; distinct by text",
+    "C09": "per position: SAN of every legal move in both styles + ~100-300 texts (hints added/removed/wrong, capture mark toggled, promotion changed, every short pawn-capture form, UCI spellings, check suffixes, garbage); non-trivial = position where some SAN is longer than 3 characters",
+    "C10": "per position all 20 480 strings [a-h][1-8][a-h][1-8][nbrq]? + '0000' through from_uci, from_uci_semilegal, from_uci_legal, Uci(s).make, uci::Move::make; non-trivial = position with a special-kind pseudo-legal move",
+    "C12": "every string of length <= 2 (quick: + 1/12 of length 3; thorough: all of length <= 3) over a 25-symbol alphabet incl. 2-, 3- and 4-byte characters, NUL and space; grammar-directed mutations of valid texts; long strings; random Unicode; UCI lists with ASCII and non-ASCII whitespace; each through 12 parsing entry points; non-trivial = multi-byte, short or accepted text",
+})
+
+
+def plan_generic(prop, tier, seed):
+    run = Run(prop, tier, seed, "model_checking")
+    run.rule = RULES[prop]
+    run.assumptions = [
+        "the TLA+ specification (Rules, Notation, Chain) is the oracle; Rules is pinned to published perft counts by SelfTest",
+        "bounded: the listed sessions / texts, not all histories or strings",
+        "the harness projection reports the library's values faithfully; a panic is caught and logged as data, an abort is reported through the write-ahead file",
+    ]
+    try:
+        binary = build_harness("checked")
+    except ToolError as e:
+        run.tool_error(str(e))
+        return run.finish()
+    qi = 0 if tier == "quick" else 1
+    n, cap = GENERIC[prop][qi], GENERIC[prop][2 + qi]
+    out = fresh_dir(os.path.join(WORK, f"{prop}-{tier}"))
+    t0 = time.time()
+    env = {"HARNESS_DEEP": "1"} if (tier == "thorough" and prop == "C12") else None
+    rc, txt_ = run_harness(binary, ["gen", prop, n, seed, out, cap], env=env)
+    log(f"[gen] {txt_.strip().splitlines()[-1] if txt_.strip() else ''} rc={rc} in {time.time() - t0:.1f}s")
+    if rc != 0:
+        wal = os.path.join(out, "wal.json")
+        if os.path.exists(wal):
+            w = json.load(open(wal))
+            run.violation("crash:" + json.dumps(w), {"engine": "i2s", "crash": w, "output": txt_[-2000:]},
+                          "the library aborted the process on this input")
+        else:
+            run.tool_error("harness gen failed:\n" + txt_[-3000:])
+            return run.finish()
+    res = validate_dir(prop, out)
+    run.add_trace_results(res, ident_generic(prop), Classifier(prop), chain_payload)
+    corruption_generic(run, prop, out)
     if len(run.nontrivial) < 2:
         run.tool_error("vacuous coverage: fewer than 2 non-trivial cases")
     return run.finish()
@@ -385,6 +690,7 @@ def replay(prop, path):
 
 PLANS = {p: plan_queries for p in ("C01", "C03", "C06", "C07", "C16")}
 PLANS.update({"C04": plan_sessions, "C05": plan_sessions})
+PLANS.update({p: plan_generic for p in GENERIC})
 
 
 def run(prop, tier, seed):
